@@ -54,7 +54,7 @@ class Main:
 
     @staticmethod
     def gen_cases(rng, tier):
-        n = 520 if tier == 'quick' else 6000
+        n = 520 if tier == 'quick' else 4000
         out = []
         # systematic block: every orientation x both directions x a permuting and a flipping order
         for orient in sorted(cl.ALL_ORIENTS):
